@@ -65,22 +65,30 @@ theorem WF.zero_inv {s : Tree H} (h : WF s 0) : ∃ v, s = Tree.leaf v := by
 
 /-! ### what `Ideal` says about a proof node with a given hash -/
 
-theorem pnode_of_hash_bin (hI : Ideal A) {nd : PNode H} {a b : H} (h : nd.hash A = A.bin a b) :
+theorem pnode_of_hash_bin (hI : Ideal A) {nd : PNode H} {a b : H} (hb : b ≠ A.zero)
+    (h : nd.hash A = A.bin a b) :
     ∃ l r c, nd = PNode.bin l r c ∧ l.felt A = a ∧ r.felt A = b := by
   cases nd with
   | bin l r c =>
     obtain ⟨h1, h2⟩ := hI.bin_inj _ _ _ _ h
     exact ⟨l, r, c, rfl, h1, h2⟩
-  | edge p ch c => exact absurd h.symm (hI.bin_ne_edge _ _ _ _)
+  | edge p ch c => exact absurd h.symm (hI.bin_ne_edge _ _ _ _ (Or.inr hb))
 
-theorem pnode_of_hash_edge (hI : Ideal A) {nd : PNode H} {c : H} {p : Path}
+theorem pnode_of_hash_edge (hI : Ideal A) {nd : PNode H} {c : H} {p : Path} (hp : p ≠ [])
     (h : nd.hash A = A.edge c p) : ∃ ch cc, nd = PNode.edge p ch cc ∧ ch.felt A = c := by
   cases nd with
-  | bin l r cc => exact absurd h (hI.bin_ne_edge _ _ _ _)
+  | bin l r cc => exact absurd h (hI.bin_ne_edge _ _ _ _ (Or.inl hp))
   | edge p' ch cc =>
     obtain ⟨h1, h2⟩ := hI.edge_inj _ _ _ _ h
     subst h2
     exact ⟨ch, cc, rfl, h1⟩
+
+theorem hash_ne_zero_nz (hI : Ideal A) {t : Tree H} {n : Nat} (hwf : WF t n) (hnz : t.NZ A) :
+    t.hash A ≠ A.zero := by
+  cases t with
+  | leaf v => exact hnz
+  | bin l r => exact hI.bin_ne_zero _ _
+  | edge p c => exact hI.edge_ne_zero _ _
 
 /-! ### node sets -/
 
@@ -139,14 +147,15 @@ theorem get_of_WF_zero {s : Tree H} (h : WF s 0) (k : Path) : s.get A k = s.hash
 /-! ### `trie.VerifyProof` is sound against any node set -/
 
 theorem legacy_sound_aux (hI : Ideal A) (P : PSet H) (key : Path) (h256 : key.length < 256) :
-    ∀ (s : Tree H) (m pos fuel : Nat) (v : H), WF s m → 0 < m → pos + m = key.length →
+    ∀ (s : Tree H) (m pos fuel : Nat) (v : H), WF s m → s.NZ A → 0 < m → pos + m = key.length →
       verifyLAux A P key fuel (s.hash A) pos = Res.ok v → v = s.get A (key.drop pos) := by
   intro s
   induction s with
-  | leaf x => intro m pos fuel v hwf hm; have := hwf.leaf_inv; omega
+  | leaf x => intro m pos fuel v hwf _ hm; have := hwf.leaf_inv; omega
   | bin l r ihl ihr =>
-    intro m pos fuel v hwf hm hpos h
+    intro m pos fuel v hwf hnz hm hpos h
     obtain ⟨n, rfl, hl, hr⟩ := hwf.bin_inv
+    obtain ⟨hnzl, hnzr⟩ := hnz
     cases fuel with
     | zero => simp [verifyLAux] at h
     | succ f =>
@@ -154,7 +163,7 @@ theorem legacy_sound_aux (hI : Ideal A) (P : PSet H) (key : Path) (h256 : key.le
       | none => simp [verifyLAux, hget] at h
       | some nd =>
         by_cases hh : nd.hash A = (Tree.bin l r).hash A
-        · obtain ⟨l', r', c', rfl, hl', hr'⟩ := pnode_of_hash_bin hI (a := l.hash A) (b := r.hash A) hh
+        · obtain ⟨l', r', c', rfl, hl', hr'⟩ := pnode_of_hash_bin hI (a := l.hash A) (b := r.hash A) (hash_ne_zero_nz hI hr hnzr) hh
           rw [verifyLAux_bin hget hh (by omega) h256] at h
           have hget' : (Tree.bin l r).get A (key.drop pos) =
               if key.getD pos false then r.get A (key.drop (pos + 1)) else l.get A (key.drop (pos + 1)) := by
@@ -171,14 +180,14 @@ theorem legacy_sound_aux (hI : Ideal A) (P : PSet H) (key : Path) (h256 : key.le
             | true =>
               rw [hb] at h; simp only [if_true] at h ⊢
               rw [hr'] at h
-              exact ihr n (pos + 1) f v hr (by omega) (by omega) h
+              exact ihr n (pos + 1) f v hr hnzr (by omega) (by omega) h
             | false =>
               rw [hb] at h; simp only [Bool.false_eq_true, if_false] at h ⊢
               rw [hl'] at h
-              exact ihl n (pos + 1) f v hl (by omega) (by omega) h
+              exact ihl n (pos + 1) f v hl hnzl (by omega) (by omega) h
         · simp [verifyLAux, hget, hh] at h
   | edge p c ih =>
-    intro m pos fuel v hwf hm hpos h
+    intro m pos fuel v hwf hnz hm hpos h
     obtain ⟨n, rfl, hp, hc⟩ := hwf.edge_inv
     cases fuel with
     | zero => simp [verifyLAux] at h
@@ -187,7 +196,7 @@ theorem legacy_sound_aux (hI : Ideal A) (P : PSet H) (key : Path) (h256 : key.le
       | none => simp [verifyLAux, hget] at h
       | some nd =>
         by_cases hh : nd.hash A = (Tree.edge p c).hash A
-        · obtain ⟨ch, cc, rfl, hch⟩ := pnode_of_hash_edge hI (c := c.hash A) (p := p) hh
+        · obtain ⟨ch, cc, rfl, hch⟩ := pnode_of_hash_edge hI (c := c.hash A) (p := p) hp hh
           rw [verifyLAux_edge hget hh (by omega) h256] at h
           simp only [Tree.get]
           cases hpre : p.isPrefixOf (key.drop pos) with
@@ -207,7 +216,7 @@ theorem legacy_sound_aux (hI : Ideal A) (P : PSet H) (key : Path) (h256 : key.le
               cases h
               rw [get_of_WF_zero hc, hch]
             · rw [if_neg hend, hch] at h
-              exact ih n (pos + p.length) f v hc (by omega) (by omega) h
+              exact ih n (pos + p.length) f v hc hnz (by omega) (by omega) h
         · simp [verifyLAux, hget, hh] at h
 
 /-! ### honest proof nodes -/
@@ -240,15 +249,16 @@ theorem proveNodes_edge (p : Path) (c : Tree H) (legacy cached : Bool) (k : Path
 
 theorem legacy_complete_aux (hI : Ideal A) (P : PSet H) (key : Path) (h256 : key.length < 256)
     (hcons : ∀ e ∈ P, e.1 = e.2.hash A) (legacy cached : Bool) :
-    ∀ (s : Tree H) (m pos fuel : Nat), WF s m → 0 < m → pos + m = key.length → m ≤ fuel →
+    ∀ (s : Tree H) (m pos fuel : Nat), WF s m → s.NZ A → 0 < m → pos + m = key.length → m ≤ fuel →
       (∀ nd ∈ s.proveNodes A legacy cached (key.drop pos), (nd.hash A, nd) ∈ P) →
       verifyLAux A P key fuel (s.hash A) pos = Res.ok (s.get A (key.drop pos)) := by
   intro s
   induction s with
-  | leaf x => intro m pos fuel hwf hm; have := hwf.leaf_inv; omega
+  | leaf x => intro m pos fuel hwf _ hm; have := hwf.leaf_inv; omega
   | bin l r ihl ihr =>
-    intro m pos fuel hwf hm hpos hfuel hsub
+    intro m pos fuel hwf hnz hm hpos hfuel hsub
     obtain ⟨n, rfl, hl, hr⟩ := hwf.bin_inv
+    obtain ⟨hnzl, hnzr⟩ := hnz
     obtain ⟨f, rfl⟩ : ∃ f, fuel = f + 1 := ⟨fuel - 1, by omega⟩
     rw [proveNodes_bin] at hsub
     have h0 := hsub _ (List.mem_cons_self ..)
@@ -258,7 +268,7 @@ theorem legacy_complete_aux (hI : Ideal A) (P : PSet H) (key : Path) (h256 : key
     rw [hh0] at h0
     obtain ⟨nd, hget⟩ := PSet.get_isSome_of_mem h0
     have hh : nd.hash A = (Tree.bin l r).hash A := (hcons _ (PSet.get_mem hget)).symm
-    obtain ⟨l', r', c', rfl, hl', hr'⟩ := pnode_of_hash_bin hI (a := l.hash A) (b := r.hash A) hh
+    obtain ⟨l', r', c', rfl, hl', hr'⟩ := pnode_of_hash_bin hI (a := l.hash A) (b := r.hash A) (hash_ne_zero_nz hI hr hnzr) hh
     rw [verifyLAux_bin hget hh (by omega) h256]
     have hget' : (Tree.bin l r).get A (key.drop pos) =
         if key.getD pos false then r.get A (key.drop (pos + 1)) else l.get A (key.drop (pos + 1)) := by
@@ -280,14 +290,14 @@ theorem legacy_complete_aux (hI : Ideal A) (P : PSet H) (key : Path) (h256 : key
         rw [hb] at hsub'
         simp only [if_true] at hsub' ⊢
         rw [hr']
-        exact ihr n (pos + 1) f hr (by omega) (by omega) (by omega) hsub'
+        exact ihr n (pos + 1) f hr hnzr (by omega) (by omega) (by omega) hsub'
       | false =>
         rw [hb] at hsub'
         simp only [Bool.false_eq_true, if_false] at hsub' ⊢
         rw [hl']
-        exact ihl n (pos + 1) f hl (by omega) (by omega) (by omega) hsub'
+        exact ihl n (pos + 1) f hl hnzl (by omega) (by omega) (by omega) hsub'
   | edge p c ih =>
-    intro m pos fuel hwf hm hpos hfuel hsub
+    intro m pos fuel hwf hnz hm hpos hfuel hsub
     obtain ⟨n, rfl, hp, hc⟩ := hwf.edge_inv
     have hplen : 0 < p.length := List.length_pos_iff.mpr hp
     obtain ⟨f, rfl⟩ : ∃ f, fuel = f + 1 := ⟨fuel - 1, by omega⟩
@@ -299,7 +309,7 @@ theorem legacy_complete_aux (hI : Ideal A) (P : PSet H) (key : Path) (h256 : key
     rw [hh0] at h0
     obtain ⟨nd, hget⟩ := PSet.get_isSome_of_mem h0
     have hh : nd.hash A = (Tree.edge p c).hash A := (hcons _ (PSet.get_mem hget)).symm
-    obtain ⟨ch, cc, rfl, hch⟩ := pnode_of_hash_edge hI (c := c.hash A) (p := p) hh
+    obtain ⟨ch, cc, rfl, hch⟩ := pnode_of_hash_edge hI (c := c.hash A) (p := p) hp hh
     rw [verifyLAux_edge hget hh (by omega) h256]
     simp only [Tree.get]
     cases hpre : p.isPrefixOf (key.drop pos) with
@@ -315,7 +325,7 @@ theorem legacy_complete_aux (hI : Ideal A) (P : PSet H) (key : Path) (h256 : key
         subst hn
         rw [if_pos hend, get_of_WF_zero hc, hch]
       · rw [if_neg hend, hch]
-        exact ih n (pos + p.length) f hc (by omega) (by omega) (by omega)
+        exact ih n (pos + p.length) f hc hnz (by omega) (by omega) (by omega)
           (fun nd hnd => hsub nd (List.mem_cons_of_mem _ hnd))
 
 /-! ### `trie2.VerifyProof` -/
@@ -330,18 +340,77 @@ theorem hash_ne_zero (hI : Ideal A) {t : Tree H} {n : Nat} (hwf : WF t n) (hn : 
 /-- what `VerifyProof` does with the child `get` returned -/
 def after2 (A : HashAlg H) (cfg : Cfg) (P : PSet H) (fuel : Nat) (c : Child H) (key' : Path) : Res H :=
   match c.tag with
-  | .nil => .ok A.zero
+  | .nil => if cfg.walkCollapsed && !(cfg.earlyValue || key'.length = 0) then .earlyValue else .ok A.zero
   | .hash => if key'.length = 0 then .ok c.h else verify2Aux A cfg P fuel c.h key'
   | .value => if cfg.earlyValue || key'.length = 0 then .ok c.h else .earlyValue
 
-theorem verify2Aux_succ {cfg : Cfg} {P : PSet H} {key : Path} {fuel : Nat} {e : H} {nd : PNode H}
+/-- the child is one of the three collapsed shapes (not an embedded node) -/
+def Child.noEmb (c : Child H) : Prop := c.shape ≠ Shape.embPlain ∧ c.shape ≠ Shape.embCached
+
+def PNode.noEmb : PNode H → Prop
+  | .bin l r _ => l.noEmb ∧ r.noEmb
+  | .edge _ c _ => c.noEmb
+
+/-- the full arm structure of `VerifyProof` after `get`, embedded children included -/
+def after2e (A : HashAlg H) (cfg : Cfg) (P : PSet H) (fuel : Nat) (e : H) (c : Child H) (key' : Path) :
+    Res H :=
+  if !cfg.walkCollapsed && c.shape = .embPlain then verify2Aux A cfg P fuel e key'
+  else if !cfg.walkCollapsed && c.shape = .embCached then verify2Aux A cfg P fuel c.h key'
+  else after2 A cfg P fuel c key'
+
+theorem after2e_eq {cfg : Cfg} {P : PSet H} {fuel : Nat} {e : H} {c : Child H} {key' : Path}
+    (h : cfg.walkCollapsed = true ∨ c.noEmb) : after2e A cfg P fuel e c key' = after2 A cfg P fuel c key' := by
+  unfold after2e
+  rcases h with h | ⟨h1, h2⟩
+  · simp [h]
+  · simp [h1, h2]
+
+theorem verify2Aux_succ_e {cfg : Cfg} {P : PSet H} {key : Path} {fuel : Nat} {e : H} {nd : PNode H}
     (hget : P.get e = some nd) (hh : nd.hash2 A cfg = e) :
     verify2Aux A cfg P (fuel + 1) e key =
       match step2 nd key with
       | (none, _) => Res.ok A.zero
-      | (some c, key') => after2 A cfg P fuel c key' := by
-  simp only [verify2Aux, hget, hh, ne_eq, not_true_eq_false, if_false, after2]
+      | (some c, key') => after2e A cfg P fuel e c key' := by
+  simp only [verify2Aux, hget, hh, ne_eq, not_true_eq_false, if_false, after2e, after2]
   rfl
+
+theorem step2_child_noEmb {nd : PNode H} (h : nd.noEmb) (key : Path) :
+    ∀ c key', step2 nd key = (some c, key') → c.noEmb := by
+  intro c key' hs
+  cases nd with
+  | bin l r cc =>
+    simp only [step2, Prod.mk.injEq, Option.some.injEq] at hs
+    obtain ⟨hc, _⟩ := hs
+    subst hc
+    split
+    · exact h.2
+    · exact h.1
+  | edge p ch cc =>
+    simp only [step2] at hs
+    split at hs
+    · cases hs
+    · simp only [Prod.mk.injEq, Option.some.injEq] at hs
+      obtain ⟨hc, _⟩ := hs
+      subst hc
+      exact h
+
+theorem verify2Aux_succ {cfg : Cfg} {P : PSet H} {key : Path} {fuel : Nat} {e : H} {nd : PNode H}
+    (hget : P.get e = some nd) (hh : nd.hash2 A cfg = e) (hemb : cfg.walkCollapsed = true ∨ nd.noEmb) :
+    verify2Aux A cfg P (fuel + 1) e key =
+      match step2 nd key with
+      | (none, _) => Res.ok A.zero
+      | (some c, key') => after2 A cfg P fuel c key' := by
+  rw [verify2Aux_succ_e hget hh]
+  cases hs : step2 nd key with
+  | mk oc key' =>
+    cases oc with
+    | none => rfl
+    | some c =>
+      simp only
+      apply after2e_eq
+      rcases hemb with h | h
+      · exact Or.inl h
+      · exact Or.inr (step2_child_noEmb h key c key' hs)
 
 theorem after2_sound (hI : Ideal A) {cfg : Cfg} {P : PSet H} {t' : Tree H} {n fuel : Nat}
     {ch : Child H} {key' : Path} {v : H}
@@ -352,13 +421,16 @@ theorem after2_sound (hI : Ideal A) {cfg : Cfg} {P : PSet H} {t' : Tree H} {n fu
   unfold after2 at h
   cases htag : ch.tag with
   | nil =>
-    rw [htag] at h; simp at h
+    rw [htag] at h; simp only at h
     have hz : t'.hash A = A.zero := by rw [← hf]; simp [Child.felt, htag]
-    by_cases hn : 0 < n
-    · exact absurd hz (hash_ne_zero hI hwf hn)
-    · have : n = 0 := by omega
-      subst this
-      rw [get_of_WF_zero hwf, hz, h]
+    split at h
+    · cases h
+    · cases h
+      by_cases hn : 0 < n
+      · exact absurd hz (hash_ne_zero hI hwf hn)
+      · have : n = 0 := by omega
+        subst this
+        rw [get_of_WF_zero hwf, hz]
   | hash =>
     rw [htag] at h; simp only at h
     have hfe : ch.h = t'.hash A := by rw [← hf]; simp [Child.felt, htag]
@@ -398,15 +470,17 @@ theorem hash2_eq_hash {cfg : Cfg} {nd : PNode H} (h : cfg.trustCache = true → 
 
 theorem trie2_sound_aux (hI : Ideal A) (cfg : Cfg) (P : PSet H)
     (hcache : cfg.trustCache = true → ∀ e ∈ P, e.2.cache = none)
-    (hval : cfg.earlyValue = true → ∀ e ∈ P, e.2.noValue) :
-    ∀ (s : Tree H) (m fuel : Nat) (key : Path) (v : H), WF s m → 0 < m → key.length = m →
+    (hval : cfg.earlyValue = true → ∀ e ∈ P, e.2.noValue)
+    (hemb : cfg.walkCollapsed = true ∨ ∀ e ∈ P, e.2.noEmb) :
+    ∀ (s : Tree H) (m fuel : Nat) (key : Path) (v : H), WF s m → s.NZ A → 0 < m → key.length = m →
       verify2Aux A cfg P fuel (s.hash A) key = Res.ok v → v = s.get A key := by
   intro s
   induction s with
-  | leaf x => intro m fuel key v hwf hm; have := hwf.leaf_inv; omega
+  | leaf x => intro m fuel key v hwf _ hm; have := hwf.leaf_inv; omega
   | bin l r ihl ihr =>
-    intro m fuel key v hwf hm hk h
+    intro m fuel key v hwf hnz hm hk h
     obtain ⟨n, rfl, hl, hr⟩ := hwf.bin_inv
+    obtain ⟨hnzl, hnzr⟩ := hnz
     cases fuel with
     | zero => simp [verify2Aux] at h
     | succ f =>
@@ -416,8 +490,8 @@ theorem trie2_sound_aux (hI : Ideal A) (cfg : Cfg) (P : PSet H)
         have hmem := PSet.get_mem hget
         have h2 : nd.hash2 A cfg = nd.hash A := hash2_eq_hash (fun hc => hcache hc _ hmem)
         by_cases hh : nd.hash A = (Tree.bin l r).hash A
-        · obtain ⟨l', r', c', rfl, hl', hr'⟩ := pnode_of_hash_bin hI (a := l.hash A) (b := r.hash A) hh
-          rw [verify2Aux_succ hget (h2.trans hh)] at h
+        · obtain ⟨l', r', c', rfl, hl', hr'⟩ := pnode_of_hash_bin hI (a := l.hash A) (b := r.hash A) (hash_ne_zero_nz hI hr hnzr) hh
+          rw [verify2Aux_succ hget (h2.trans hh) (hemb.imp id (fun h' => h' _ hmem))] at h
           simp only [step2] at h
           have hkl : (key.drop 1).length = n := by simp; omega
           simp only [Tree.get]
@@ -428,16 +502,16 @@ theorem trie2_sound_aux (hI : Ideal A) (cfg : Cfg) (P : PSet H)
             rw [hb] at h; simp only [if_true] at h ⊢
             rw [← List.drop_one]
             exact after2_sound hI hr hkl hr' (fun hc => (hnv hc).2)
-              (fun hn hv => ihr n f _ v hr hn hkl hv) h
+              (fun hn hv => ihr n f _ v hr hnzr hn hkl hv) h
           | false =>
             rw [hb] at h; simp only [Bool.false_eq_true, if_false] at h ⊢
             rw [← List.drop_one]
             exact after2_sound hI hl hkl hl' (fun hc => (hnv hc).1)
-              (fun hn hv => ihl n f _ v hl hn hkl hv) h
+              (fun hn hv => ihl n f _ v hl hnzl hn hkl hv) h
         · rw [← h2] at hh
           simp [verify2Aux, hget, hh] at h
   | edge p c ih =>
-    intro m fuel key v hwf hm hk h
+    intro m fuel key v hwf hnz hm hk h
     obtain ⟨n, rfl, hp, hc⟩ := hwf.edge_inv
     cases fuel with
     | zero => simp [verify2Aux] at h
@@ -448,8 +522,8 @@ theorem trie2_sound_aux (hI : Ideal A) (cfg : Cfg) (P : PSet H)
         have hmem := PSet.get_mem hget
         have h2 : nd.hash2 A cfg = nd.hash A := hash2_eq_hash (fun hc => hcache hc _ hmem)
         by_cases hh : nd.hash A = (Tree.edge p c).hash A
-        · obtain ⟨ch, cc, rfl, hch⟩ := pnode_of_hash_edge hI (c := c.hash A) (p := p) hh
-          rw [verify2Aux_succ hget (h2.trans hh)] at h
+        · obtain ⟨ch, cc, rfl, hch⟩ := pnode_of_hash_edge hI (c := c.hash A) (p := p) hp hh
+          rw [verify2Aux_succ hget (h2.trans hh) (hemb.imp id (fun h' => h' _ hmem))] at h
           have hcomp : pathCompat p key = p.isPrefixOf key := by
             rw [pathCompat_comm]; exact pathCompat_of_le (by omega)
           simp only [step2, hcomp] at h
@@ -463,9 +537,12 @@ theorem trie2_sound_aux (hI : Ideal A) (cfg : Cfg) (P : PSet H)
             simp only [Bool.not_true, Bool.false_eq_true, if_false, if_true] at h ⊢
             have hkl : (key.drop p.length).length = n := by simp; omega
             exact after2_sound hI hc hkl hch (fun hcv => hval hcv _ hmem)
-              (fun hn hv => ih n f _ v hc hn hkl hv) h
+              (fun hn hv => ih n f _ v hc hnz hn hkl hv) h
         · rw [← h2] at hh
           simp [verify2Aux, hget, hh] at h
+
+theorem Tree.child_noEmb (t : Tree H) : (t.child A).noEmb := by
+  cases t <;> simp [Tree.child, Child.noEmb]
 
 theorem after2_complete {cfg : Cfg} {P : PSet H} {t' : Tree H} {n fuel : Nat} {key' : Path}
     (hwf : WF t' n) (hk : key'.length = n)
@@ -476,17 +553,17 @@ theorem after2_complete {cfg : Cfg} {P : PSet H} {t' : Tree H} {n fuel : Nat} {k
   | leaf v =>
     have : n = 0 := hwf.leaf_inv
     subst this
-    simp [Tree.child, hk, Tree.get]
+    simp [Tree.child, Child.tag, hk, Tree.get]
   | bin l r =>
     obtain ⟨n', rfl, _, _⟩ := hwf.bin_inv
     have : ¬ key'.length = 0 := by omega
-    simp only [Tree.child, this, if_false]
+    simp only [Tree.child, Child.tag, this, if_false]
     exact ih (by omega)
   | edge p c =>
     obtain ⟨n', rfl, hp, _⟩ := hwf.edge_inv
     have hplen : 0 < p.length := List.length_pos_iff.mpr hp
     have : ¬ key'.length = 0 := by omega
-    simp only [Tree.child, this, if_false]
+    simp only [Tree.child, Child.tag, this, if_false]
     exact ih (by omega)
 
 theorem honest_hash2 (cfg : Cfg) (cached : Bool) (nd : PNode H) (h : H) (hh : nd.hash A = h)
@@ -511,7 +588,7 @@ theorem trie2_complete_aux (cfg : Cfg) (P : PSet H) (legacy cached : Bool) :
         (if cached then some ((Tree.bin l r).hash A) else none)).hash A = (Tree.bin l r).hash A := by
       simp [PNode.hash, Tree.hash, Tree.child_felt]
     rw [hh0] at h0
-    rw [verify2Aux_succ h0 (honest_hash2 cfg cached _ _ hh0 rfl)]
+    rw [verify2Aux_succ h0 (honest_hash2 cfg cached _ _ hh0 rfl) (Or.inr ⟨Tree.child_noEmb _, Tree.child_noEmb _⟩)]
     have hkl : (key.drop 1).length = n := by simp; omega
     simp only [step2, Tree.get]
     rw [← List.drop_one]
@@ -537,7 +614,7 @@ theorem trie2_complete_aux (cfg : Cfg) (P : PSet H) (legacy cached : Bool) :
         (if cached then some ((Tree.edge p c).hash A) else none)).hash A = (Tree.edge p c).hash A := by
       simp [PNode.hash, Tree.hash, Tree.child_felt]
     rw [hh0] at h0
-    rw [verify2Aux_succ h0 (honest_hash2 cfg cached _ _ hh0 rfl)]
+    rw [verify2Aux_succ h0 (honest_hash2 cfg cached _ _ hh0 rfl) (Or.inr (Tree.child_noEmb _))]
     have hcomp : pathCompat p key = p.isPrefixOf key := by
       rw [pathCompat_comm]; exact pathCompat_of_le (by omega)
     simp only [step2, hcomp, Tree.get]
@@ -687,9 +764,53 @@ theorem freeAlg_ideal : Ideal freeAlg where
     intro c p c' p' h
     simp [HashAlg.edge, freeAlg] at h
     exact ⟨h.1.1, pathVal_inj p p' h.2 h.1.2⟩
-  bin_ne_edge := by intro a b c p h; simp [HashAlg.bin, HashAlg.edge, freeAlg] at h
+  bin_ne_edge := by intro a b c p _ h; simp [HashAlg.bin, HashAlg.edge, freeAlg] at h
   bin_ne_zero := by intro a b h; simp [HashAlg.bin, freeAlg] at h
   edge_ne_zero := by intro c p h; simp [HashAlg.edge, freeAlg] at h
+
+theorem feltLikeAlg_edge (c : HTerm) (p : Path) :
+    feltLikeAlg.edge c p = if p.length = 0 then HTerm.ped c (.felt (pathVal p))
+      else HTerm.add (HTerm.ped c (.felt (pathVal p))) p.length := by
+  simp [HashAlg.edge, feltLikeAlg]
+
+/-- the repaired `Ideal` is satisfiable in an algebra with `ofNat 0 = zero` and `x + 0 = x` -/
+theorem feltLikeAlg_ideal : Ideal feltLikeAlg where
+  bin_inj := by intro a b c d h; simp [HashAlg.bin, feltLikeAlg] at h; exact h
+  edge_inj := by
+    intro c p c' p' h
+    rw [feltLikeAlg_edge, feltLikeAlg_edge] at h
+    by_cases hp : p.length = 0 <;> by_cases hp' : p'.length = 0
+    · simp only [hp, hp', if_true] at h
+      have e1 : p = [] := List.eq_nil_of_length_eq_zero hp
+      have e2 : p' = [] := List.eq_nil_of_length_eq_zero hp'
+      subst e1; subst e2
+      simp at h
+      exact ⟨h, rfl⟩
+    · simp [hp, hp'] at h
+    · simp [hp, hp'] at h
+    · simp only [hp, hp', if_false] at h
+      simp at h
+      exact ⟨h.1.1, pathVal_inj p p' h.2 h.1.2⟩
+  bin_ne_edge := by
+    intro a b c p hor h
+    rw [feltLikeAlg_edge] at h
+    by_cases hp : p.length = 0
+    · have e1 : p = [] := List.eq_nil_of_length_eq_zero hp
+      subst e1
+      simp [HashAlg.bin, feltLikeAlg, pathVal] at h
+      rcases hor with h1 | h1
+      · exact h1 rfl
+      · exact h1 (by simp [feltLikeAlg, h.2])
+    · simp [hp, HashAlg.bin, feltLikeAlg] at h
+  bin_ne_zero := by intro a b h; simp [HashAlg.bin, feltLikeAlg] at h
+  edge_ne_zero := by
+    intro c p h
+    rw [feltLikeAlg_edge] at h
+    split at h <;> simp [feltLikeAlg] at h
+
+/-- …where the collision the unrestricted statement would forbid really exists -/
+theorem feltLikeAlg_collision (c : HTerm) : feltLikeAlg.bin c feltLikeAlg.zero = feltLikeAlg.edge c [] := by
+  simp [HashAlg.bin, HashAlg.edge, feltLikeAlg, pathVal]
 
 theorem freeAlg_acyclic : Acyclic freeAlg :=
   ⟨HTerm.rank, by intro a b; simp [HashAlg.bin, freeAlg, HTerm.rank]; omega,
@@ -702,6 +823,12 @@ def Trie.WF (t : Trie H) (n : Nat) : Prop :=
   match t with
   | none => True
   | some t => Juno.C10.WF t n
+
+/-- no leaf of the trie holds zero -/
+def Trie.NZ (A : HashAlg H) (t : Trie H) : Prop :=
+  match t with
+  | none => True
+  | some t => t.NZ A
 
 theorem verifyFuel_ge {n : Nat} (h : n < 256) : n ≤ verifyFuel := by unfold verifyFuel; omega
 
@@ -741,7 +868,7 @@ theorem verify2Aux_zero_not_ok (hI : Ideal A) (cfg : Cfg) (P : PSet H)
         hash2_eq_hash (fun hc => hcache hc _ (PSet.get_mem hget))
       simp [verify2Aux, hget, h2, pnode_hash_ne_zero hI nd]
 
-theorem legacy_sound (hI : Ideal A) (cfg : Cfg) (t : Trie H) (n : Nat) (hwf : t.WF n) (hn : 0 < n)
+theorem legacy_sound (hI : Ideal A) (cfg : Cfg) (t : Trie H) (n : Nat) (hwf : t.WF n) (hnz : t.NZ A) (hn : 0 < n)
     (h256 : n < 256) (k : Path) (hk : k.length = n) (P : PSet H) (v : H)
     (h : verifyL A cfg (t.hash A) k P = Res.ok v) : v = t.get A k := by
   cases t with
@@ -754,12 +881,13 @@ theorem legacy_sound (hI : Ideal A) (cfg : Cfg) (t : Trie H) (n : Nat) (hwf : t.
   | some s =>
     simp only [Trie.hash, Trie.get] at h ⊢
     rw [verifyL_nonzero k P (hash_ne_zero hI hwf hn)] at h
-    exact legacy_sound_aux hI P k (by omega) s n 0 verifyFuel v hwf hn (by omega) h
+    exact legacy_sound_aux hI P k (by omega) s n 0 verifyFuel v hwf hnz hn (by omega) h
 
-theorem trie2_sound (hI : Ideal A) (cfg : Cfg) (t : Trie H) (n : Nat) (hwf : t.WF n) (hn : 0 < n)
+theorem trie2_sound (hI : Ideal A) (cfg : Cfg) (t : Trie H) (n : Nat) (hwf : t.WF n) (hnz : t.NZ A) (hn : 0 < n)
     (k : Path) (hk : k.length = n) (P : PSet H)
     (hcache : cfg.trustCache = true → ∀ e ∈ P, e.2.cache = none)
-    (hval : cfg.earlyValue = true → ∀ e ∈ P, e.2.noValue) (v : H)
+    (hval : cfg.earlyValue = true → ∀ e ∈ P, e.2.noValue)
+    (hemb : cfg.walkCollapsed = true ∨ ∀ e ∈ P, e.2.noEmb) (v : H)
     (h : verify2 A cfg (t.hash A) k P = Res.ok v) : v = t.get A k := by
   cases t with
   | none =>
@@ -771,7 +899,7 @@ theorem trie2_sound (hI : Ideal A) (cfg : Cfg) (t : Trie H) (n : Nat) (hwf : t.W
   | some s =>
     simp only [Trie.hash, Trie.get] at h ⊢
     rw [verify2_nonzero k P (hash_ne_zero hI hwf hn)] at h
-    exact trie2_sound_aux hI cfg P hcache hval s n verifyFuel k v hwf hn hk h
+    exact trie2_sound_aux hI cfg P hcache hval hemb s n verifyFuel k v hwf hnz hn hk h
 
 theorem toPSet_consistent (ns : List (PNode H)) : ∀ e ∈ toPSet A ns, e.1 = e.2.hash A := by
   intro e he
@@ -779,13 +907,13 @@ theorem toPSet_consistent (ns : List (PNode H)) : ∀ e ∈ toPSet A ns, e.1 = e
   obtain ⟨nd, _, rfl⟩ := he
   rfl
 
-theorem legacy_complete_tree (hI : Ideal A) (cfg : Cfg) (s : Tree H) (n : Nat) (hwf : WF s n)
+theorem legacy_complete_tree (hI : Ideal A) (cfg : Cfg) (s : Tree H) (n : Nat) (hwf : WF s n) (hnz : s.NZ A)
     (hn : 0 < n) (h256 : n < 256) (k : Path) (hk : k.length = n) (legacy cached : Bool) (P : PSet H)
     (hsub : ∀ nd ∈ s.proveNodes A legacy cached k, (nd.hash A, nd) ∈ P)
     (hcons : ∀ e ∈ P, e.1 = e.2.hash A) :
     verifyL A cfg (s.hash A) k P = Res.ok (s.get A k) := by
   rw [verifyL_nonzero k P (hash_ne_zero hI hwf hn)]
-  exact legacy_complete_aux hI P k (by omega) hcons legacy cached s n 0 verifyFuel hwf hn (by omega)
+  exact legacy_complete_aux hI P k (by omega) hcons legacy cached s n 0 verifyFuel hwf hnz hn (by omega)
     (verifyFuel_ge h256) hsub
 
 theorem trie2_complete_tree (hI : Ideal A) (cfg : Cfg) (s : Tree H) (n : Nat) (hwf : WF s n)
@@ -872,14 +1000,15 @@ theorem afterR_sound (hI : Ideal A) {rc : RCfg} (hev : rc.earlyValue = false)
 
 theorem resolve_sound (hI : Ideal A) (rc : RCfg) (hch : rc.checkHash = true)
     (hev : rc.earlyValue = false) (hlh : rc.leafHash = true) (P : PSet H) (allow : Bool) :
-    ∀ (s : Tree H) (m fuel : Nat) (key : Path), WF s m → 0 < m → key.length = m →
+    ∀ (s : Tree H) (m fuel : Nat) (key : Path), WF s m → s.NZ A → 0 < m → key.length = m →
       ValOK A s key (resolveAux A rc P allow fuel (s.hash A) key) := by
   intro s
   induction s with
-  | leaf x => intro m fuel key hwf hm; have := hwf.leaf_inv; omega
+  | leaf x => intro m fuel key hwf _ hm; have := hwf.leaf_inv; omega
   | bin l r ihl ihr =>
-    intro m fuel key hwf hm hk
+    intro m fuel key hwf hnz hm hk
     obtain ⟨n, rfl, hl, hr⟩ := hwf.bin_inv
+    obtain ⟨hnzl, hnzr⟩ := hnz
     cases fuel with
     | zero => simp [resolveAux, ValOK]
     | succ f =>
@@ -887,7 +1016,7 @@ theorem resolve_sound (hI : Ideal A) (rc : RCfg) (hch : rc.checkHash = true)
       | none => simp [resolveAux, hget, ValOK]
       | some nd =>
         by_cases hh : nd.hash A = (Tree.bin l r).hash A
-        · obtain ⟨l', r', c', rfl, hl', hr'⟩ := pnode_of_hash_bin hI (a := l.hash A) (b := r.hash A) hh
+        · obtain ⟨l', r', c', rfl, hl', hr'⟩ := pnode_of_hash_bin hI (a := l.hash A) (b := r.hash A) (hash_ne_zero_nz hI hr hnzr) hh
           rw [resolveAux_succ hget (by simp [hh])]
           simp only [step2]
           have hkl : (key.drop 1).length = n := by simp; omega
@@ -898,7 +1027,7 @@ theorem resolve_sound (hI : Ideal A) (rc : RCfg) (hch : rc.checkHash = true)
           | true =>
             have h1 := afterR_sound hI hev hlh (P := P) (allow := allow) (fuel := f)
               (node := PNode.bin l' r' c') (key := key) hr hkl hr'
-              (fun hn => ihr n f _ hr hn hkl)
+              (fun hn => ihr n f _ hr hnzr hn hkl)
             simp only [if_true]
             unfold ValOK at h1 ⊢
             rw [hgetT, hb]
@@ -906,14 +1035,14 @@ theorem resolve_sound (hI : Ideal A) (rc : RCfg) (hch : rc.checkHash = true)
           | false =>
             have h1 := afterR_sound hI hev hlh (P := P) (allow := allow) (fuel := f)
               (node := PNode.bin l' r' c') (key := key) hl hkl hl'
-              (fun hn => ihl n f _ hl hn hkl)
+              (fun hn => ihl n f _ hl hnzl hn hkl)
             simp only [Bool.false_eq_true, if_false]
             unfold ValOK at h1 ⊢
             rw [hgetT, hb]
             simpa using h1
         · simp [resolveAux, hget, hch, hh, ValOK]
   | edge p c ih =>
-    intro m fuel key hwf hm hk
+    intro m fuel key hwf hnz hm hk
     obtain ⟨n, rfl, hp, hc⟩ := hwf.edge_inv
     cases fuel with
     | zero => simp [resolveAux, ValOK]
@@ -922,7 +1051,7 @@ theorem resolve_sound (hI : Ideal A) (rc : RCfg) (hch : rc.checkHash = true)
       | none => simp [resolveAux, hget, ValOK]
       | some nd =>
         by_cases hh : nd.hash A = (Tree.edge p c).hash A
-        · obtain ⟨ch, cc, rfl, hch'⟩ := pnode_of_hash_edge hI (c := c.hash A) (p := p) hh
+        · obtain ⟨ch, cc, rfl, hch'⟩ := pnode_of_hash_edge hI (c := c.hash A) (p := p) hp hh
           rw [resolveAux_succ hget (by simp [hh])]
           have hcomp : pathCompat p key = p.isPrefixOf key := by
             rw [pathCompat_comm]; exact pathCompat_of_le (by omega)
@@ -935,7 +1064,7 @@ theorem resolve_sound (hI : Ideal A) (rc : RCfg) (hch : rc.checkHash = true)
             have hkl : (key.drop p.length).length = n := by simp; omega
             have h1 := afterR_sound hI hev hlh (P := P) (allow := allow) (fuel := f)
               (node := PNode.edge p ch cc) (key := key) hc hkl hch'
-              (fun hn => ih n f _ hc hn hkl)
+              (fun hn => ih n f _ hc hnz hn hkl)
             unfold ValOK at h1 ⊢
             simpa [Tree.get, hpre] using h1
         · simp [resolveAux, hget, hch, hh, ValOK]
@@ -961,23 +1090,24 @@ theorem pathCompat_self (k : Path) : pathCompat k k = true := by
   simp [pathCompat, isPrefixOf_eq_of_length_eq]
 
 theorem single_forgery (A : HashAlg H) (root : H) (k : Path) (v : H) (hv : v ≠ A.zero) :
-    verifySingle A RCfg.asIs root k v [(root, PNode.edge k ⟨Tag.value, v⟩ none)] = RRes.ok false := by
-  simp [verifySingle, hv, verifyFuel, resolveAux, PSet.get, RCfg.asIs, step2, pathCompat_self, hasRight]
+    verifySingle A RCfg.asIs root k v [(root, PNode.edge k ⟨Shape.value, v⟩ none)] = RRes.ok false := by
+  simp [verifySingle, hv, verifyFuel, resolveAux, PSet.get, RCfg.asIs, step2, pathCompat_self, hasRight,
+    Child.tag]
 
 theorem empty_forgery (A : HashAlg H) (root : H) (first : Path) (v : H)
     (hne : first ≠ List.replicate first.length false) :
     verifyEmpty A RCfg.asIs root first
-      [(root, PNode.edge (List.replicate first.length false) ⟨Tag.value, v⟩ none)] = RRes.ok false := by
+      [(root, PNode.edge (List.replicate first.length false) ⟨Shape.value, v⟩ none)] = RRes.ok false := by
   have hlen : (List.replicate first.length false).length = first.length := by simp
   have hc : pathCompat (List.replicate first.length false) first = false := by
     unfold pathCompat
     rw [isPrefixOf_eq_of_length_eq hlen, isPrefixOf_eq_of_length_eq hlen.symm]
     simp [hne, Ne.symm hne]
   simp [verifyEmpty, verifyFuel, resolveAux, PSet.get, RCfg.asIs, step2, hc, hasRight, cmpGt,
-    pathVal_replicate_false]
+    pathVal_replicate_false, Child.tag]
 
 theorem single_sound (hI : Ideal A) (rc : RCfg) (hch : rc.checkHash = true)
-    (hev : rc.earlyValue = false) (hlh : rc.leafHash = true) (t : Trie H) (n : Nat) (hwf : Trie.WF t n)
+    (hev : rc.earlyValue = false) (hlh : rc.leafHash = true) (t : Trie H) (n : Nat) (hwf : Trie.WF t n) (hnz : Trie.NZ A t)
     (hn : 0 < n) (k : Path) (hk : k.length = n) (v : H) (P : PSet H) (more : Bool)
     (h : verifySingle A rc (t.hash A) k v P = RRes.ok more) : t.get A k = v := by
   unfold verifySingle at h
@@ -1003,7 +1133,7 @@ theorem single_sound (hI : Ideal A) (rc : RCfg) (hch : rc.checkHash = true)
             | none => simp [resolveAux, hget] at hr
             | some nd => simp [resolveAux, hget, hch, pnode_hash_ne_zero hI nd] at hr
           | some s =>
-            have := resolve_sound hI rc hch hev hlh P false s n verifyFuel k hwf hn hk
+            have := resolve_sound hI rc hch hev hlh P false s n verifyFuel k hwf hnz hn hk
             simp only [Trie.hash] at hr
             rw [hr] at this
             simp only [ValOK] at this
@@ -1012,7 +1142,7 @@ theorem single_sound (hI : Ideal A) (rc : RCfg) (hch : rc.checkHash = true)
         · cases h
 
 theorem empty_sound (hI : Ideal A) (rc : RCfg) (hch : rc.checkHash = true)
-    (hev : rc.earlyValue = false) (hlh : rc.leafHash = true) (t : Tree H) (n : Nat) (hwf : WF t n)
+    (hev : rc.earlyValue = false) (hlh : rc.leafHash = true) (t : Tree H) (n : Nat) (hwf : WF t n) (hnz : t.NZ A)
     (hn : 0 < n) (first : Path) (hk : first.length = n) (P : PSet H) (more : Bool)
     (h : verifyEmpty A rc (t.hash A) first P = RRes.ok more) : t.get A first = A.zero := by
   unfold verifyEmpty at h
@@ -1023,7 +1153,7 @@ theorem empty_sound (hI : Ideal A) (rc : RCfg) (hch : rc.checkHash = true)
   | some pr =>
     obtain ⟨path, val⟩ := pr
     rw [hr] at h
-    have := resolve_sound hI rc hch hev hlh P true t n verifyFuel first hwf hn hk
+    have := resolve_sound hI rc hch hev hlh P true t n verifyFuel first hwf hnz hn hk
     rw [hr] at this
     cases val with
     | some w => simp at h
@@ -1038,18 +1168,18 @@ theorem afterR_complete {rc : RCfg} {P : PSet H} {allow : Bool} {t' : Tree H} {n
   | leaf v =>
     have : n = 0 := hwf.leaf_inv
     subst this
-    exact ⟨[(node, key)], by simp [Tree.child, hk, Tree.get]⟩
+    exact ⟨[(node, key)], by simp [Tree.child, Child.tag, hk, Tree.get]⟩
   | bin l r =>
     obtain ⟨n', rfl, _, _⟩ := hwf.bin_inv
     have hne : ¬ key'.length = 0 := by omega
     obtain ⟨path, hp⟩ := ih (by omega)
-    exact ⟨(node, key) :: path, by simp only [Tree.child, hne, decide_false, Bool.and_false, Bool.false_eq_true, if_false, hp]⟩
+    exact ⟨(node, key) :: path, by simp only [Tree.child, Child.tag, hne, decide_false, Bool.and_false, Bool.false_eq_true, if_false, hp]⟩
   | edge p c =>
     obtain ⟨n', rfl, hp0, _⟩ := hwf.edge_inv
     have hplen : 0 < p.length := List.length_pos_iff.mpr hp0
     have hne : ¬ key'.length = 0 := by omega
     obtain ⟨path, hp⟩ := ih (by omega)
-    exact ⟨(node, key) :: path, by simp only [Tree.child, hne, decide_false, Bool.and_false, Bool.false_eq_true, if_false, hp]⟩
+    exact ⟨(node, key) :: path, by simp only [Tree.child, Child.tag, hne, decide_false, Bool.and_false, Bool.false_eq_true, if_false, hp]⟩
 
 theorem resolve_complete (rc : RCfg) (P : PSet H) (allow legacy cached : Bool) :
     ∀ (s : Tree H) (m fuel : Nat) (key : Path), WF s m → 0 < m → key.length = m → m ≤ fuel →
@@ -1267,13 +1397,6 @@ theorem gtIn_edge_mismatch {p : Path} {c : Tree H} {n : Nat} (hc : WF c n) (key 
     exact hlt
 
 
-theorem hash_ne_zero_nz (hI : Ideal A) {t : Tree H} {n : Nat} (hwf : WF t n) (hnz : t.NZ A) :
-    t.hash A ≠ A.zero := by
-  cases t with
-  | leaf v => exact hnz
-  | bin l r => exact hI.bin_ne_zero _ _
-  | edge p c => exact hI.edge_ne_zero _ _
-
 /-- the `more` flag computed on the resolved path says whether the trie has a greater key -/
 def MoreOK (s : Tree H) (n : Nat) (key : Path) (r : Option (List (PNode H × Path) × Option H)) : Prop :=
   match r with
@@ -1341,7 +1464,7 @@ theorem resolve_more (hI : Ideal A) (rc : RCfg) (hch : rc.checkHash = true)
       | none => simp [resolveAux, hget, MoreOK]
       | some nd =>
         by_cases hh : nd.hash A = (Tree.bin l r).hash A
-        · obtain ⟨l', r', c', rfl, hl', hr'⟩ := pnode_of_hash_bin hI (a := l.hash A) (b := r.hash A) hh
+        · obtain ⟨l', r', c', rfl, hl', hr'⟩ := pnode_of_hash_bin hI (a := l.hash A) (b := r.hash A) (hash_ne_zero_nz hI hr hnzr) hh
           rw [resolveAux_succ hget (by simp [hh])]
           cases key with
           | nil => simp at hk
@@ -1394,7 +1517,7 @@ theorem resolve_more (hI : Ideal A) (rc : RCfg) (hch : rc.checkHash = true)
       | none => simp [resolveAux, hget, MoreOK]
       | some nd =>
         by_cases hh : nd.hash A = (Tree.edge p c).hash A
-        · obtain ⟨ch, cc, rfl, hch'⟩ := pnode_of_hash_edge hI (c := c.hash A) (p := p) hh
+        · obtain ⟨ch, cc, rfl, hch'⟩ := pnode_of_hash_edge hI (c := c.hash A) (p := p) hp hh
           rw [resolveAux_succ hget (by simp [hh])]
           have hcomp : pathCompat p key = p.isPrefixOf key := by
             rw [pathCompat_comm]; exact pathCompat_of_le (by omega)
@@ -1512,7 +1635,7 @@ theorem empty_no_key (hI : Ideal A) (rc : RCfg) (hch : rc.checkHash = true)
     (h : verifyEmpty A rc (t.hash A) first P = RRes.ok more) :
     more = false ∧ ∀ k', k'.length = n → t.has k' = true → pathLt k' first = true := by
   have hroot : t.hash A ≠ A.zero := hash_ne_zero hI hwf hn
-  have hzero := empty_sound hI rc hch hev hlh t n hwf hn first hk P more h
+  have hzero := empty_sound hI rc hch hev hlh t n hwf hnz hn first hk P more h
   unfold verifyEmpty at h
   simp only [hroot, decide_false, Bool.and_false, Bool.false_eq_true, if_false] at h
   have hm := resolve_more hI rc hch hev hlh P true t n verifyFuel first hwf hnz hn hk
@@ -1815,7 +1938,7 @@ theorem lookup_agree (hI : Ideal A) : ∀ (T : PT H) (t : Tree H) (n : Nat) (k :
       simp only [PT.phash] at hh
       cases t with
       | leaf v => have := hwf.leaf_inv; subst this; simp at hk
-      | edge p c => exact absurd hh (hI.bin_ne_edge _ _ _ _)
+      | edge p c => exact absurd hh (hI.bin_ne_edge _ _ _ _ (Or.inl hwf.edge_inv.choose_spec.2.1))
       | bin tl tr =>
         obtain ⟨m, rfl, hwl, hwr⟩ := hwf.bin_inv
         obtain ⟨h1, h2⟩ := hI.bin_inj _ _ _ _ hh
@@ -1844,7 +1967,7 @@ theorem lookup_agree (hI : Ideal A) : ∀ (T : PT H) (t : Tree H) (n : Nat) (k :
         have hlen : ¬ p.length ≤ ([] : Path).length := by simp only [List.length_nil]; omega
         simp only [this, Bool.false_eq_true, if_false, hlen] at hl
         cases hl
-      | bin tl tr => exact absurd hh.symm (hI.bin_ne_edge _ _ _ _)
+      | bin tl tr => exact absurd hh.symm (hI.bin_ne_edge _ _ _ _ (Or.inl (fun hp => hp0 (by simp [hp]))))
       | edge p' c' =>
         obtain ⟨m, rfl, _, hwc⟩ := hwf.edge_inv
         obtain ⟨h1, h2⟩ := hI.edge_inj _ _ _ _ hh
@@ -2359,12 +2482,13 @@ theorem resolvePT_auth (hI : Ideal A) (rc : RCfg) (hch : rc.checkHash = true)
               cases t with
               | leaf v => have := hwf.leaf_inv; omega
               | bin tl tr =>
-                obtain ⟨m, rfl, _, _⟩ := hwf.bin_inv
-                obtain ⟨l', r', c', rfl, _, _⟩ := pnode_of_hash_bin hI (a := tl.hash A) (b := tr.hash A) hnd
+                obtain ⟨m, rfl, _, hwr0⟩ := hwf.bin_inv
+                obtain ⟨l', r', c', rfl, _, _⟩ := pnode_of_hash_bin hI (a := tl.hash A) (b := tr.hash A)
+                  (hash_ne_zero_nz hI (by assumption) hnz.2) hnd
                 exact ⟨m, rfl, ptOfChild_fits _ _, ptOfChild_fits _ _⟩
               | edge p c =>
                 obtain ⟨m, rfl, hp, _⟩ := hwf.edge_inv
-                obtain ⟨ch, cc, rfl, _⟩ := pnode_of_hash_edge hI (c := c.hash A) (p := p) hnd
+                obtain ⟨ch, cc, rfl, _⟩ := pnode_of_hash_edge hI (c := c.hash A) (p := p) hp hnd
                 exact ⟨hp, m, rfl, ptOfChild_fits _ _⟩
             exact ih (ptOfNode nd) t n k T' hwf hnz hfit' (by rw [ptOfNode_phash]; exact hnd) hk h
     | bin l r =>
@@ -2372,7 +2496,7 @@ theorem resolvePT_auth (hI : Ideal A) (rc : RCfg) (hch : rc.checkHash = true)
       simp only [PT.phash] at hph
       cases t with
       | leaf v => have := hwf.leaf_inv; omega
-      | edge p c => exact absurd hph (hI.bin_ne_edge _ _ _ _)
+      | edge p c => exact absurd hph (hI.bin_ne_edge _ _ _ _ (Or.inl hwf.edge_inv.choose_spec.2.1))
       | bin tl tr =>
         obtain ⟨m', hm', hwl, hwr⟩ := hwf.bin_inv
         have hmm : m' = m := by omega
@@ -2420,7 +2544,7 @@ theorem resolvePT_auth (hI : Ideal A) (rc : RCfg) (hch : rc.checkHash = true)
       simp only [PT.phash] at hph
       cases t with
       | leaf v => have := hwf.leaf_inv; omega
-      | bin tl tr => exact absurd hph.symm (hI.bin_ne_edge _ _ _ _)
+      | bin tl tr => exact absurd hph.symm (hI.bin_ne_edge _ _ _ _ (Or.inl hp0))
       | edge p' c' =>
         obtain ⟨m', hm', _, hwc⟩ := hwf.edge_inv
         obtain ⟨h1, h2⟩ := hI.edge_inj _ _ _ _ hph
@@ -2561,5 +2685,215 @@ theorem build_nz : ∀ (h : Nat) (kvs : List (Path × H)) (t : Tree H),
       · rename_i a b ha hb
         cases ht
         exact ⟨ih _ _ (keysUnder_vals hv) ha, ih _ _ (keysUnder_vals hv) hb⟩
+
+theorem lastVal_of_all_eq {kvs : List (Path × H)} {k : Path} {v : H}
+    (hmem : ∃ kv ∈ kvs, kv.1 = k) (hall : ∀ kv ∈ kvs, kv.1 = k → kv.2 = v) : lastVal kvs k = some v := by
+  unfold lastVal
+  obtain ⟨kv0, hm0, hk0⟩ := hmem
+  have hne : kvs.filter (fun kv => kv.1 = k) ≠ [] := by
+    intro h
+    have : kv0 ∈ kvs.filter (fun kv => kv.1 = k) := List.mem_filter.mpr ⟨hm0, by simpa using hk0⟩
+    rw [h] at this; cases this
+  cases hl : (kvs.filter (fun kv => kv.1 = k)).getLast? with
+  | none => exact absurd (List.getLast?_eq_none_iff.mp hl) hne
+  | some kv =>
+    have hin := List.mem_of_getLast? hl
+    obtain ⟨hm, hk⟩ := List.mem_filter.mp hin
+    simp only [Option.map_some, Option.some.injEq]
+    exact hall kv hm (by simpa using hk)
+
+theorem lastVal_of_allLookup {T : PT H} {kvs : List (Path × H)}
+    (hall : kvs.all (fun kv => decide (T.lookup A kv.1 = some kv.2)) = true) (kv : Path × H) (hkv : kv ∈ kvs) :
+    T.lookup A kv.1 = some ((lastVal kvs kv.1).getD A.zero) := by
+  have hl : ∀ kv' ∈ kvs, T.lookup A kv'.1 = some kv'.2 := by
+    intro kv' h'
+    simpa using List.all_eq_true.mp hall kv' h'
+  have : lastVal kvs kv.1 = some kv.2 := by
+    apply lastVal_of_all_eq ⟨kv, hkv, rfl⟩
+    intro kv' h' hk
+    have h1 := hl kv' h'
+    have h2 := hl kv hkv
+    rw [hk, h2] at h1
+    exact (Option.some.inj h1).symm
+  rw [this]; exact hl kv hkv
+
+theorem mem_keysUnder {b : Bool} {k' : Path} {v : H} {kvs : List (Path × H)} (h : (b :: k', v) ∈ kvs) :
+    (k', v) ∈ keysUnder b kvs := by
+  simp only [keysUnder, List.mem_filterMap]
+  exact ⟨(b :: k', v), h, by simp⟩
+
+theorem fill_lookup_listed (rc : RCfg) (hul : rc.unsetLeaf = true) :
+    ∀ (T : PT H) (L U : Bd) (h : Nat) (pb : Bool) (kvs : List (Path × H)) (F : PT H),
+      fill A rc T L U h pb kvs = some F → (∀ kv ∈ kvs, kv.1.length = h) →
+      ∀ kv ∈ kvs, F.lookup A kv.1 = some ((lastVal kvs kv.1).getD A.zero) := by
+  intro T
+  induction T with
+  | nil =>
+    intro L U h pb kvs F hf hl kv hkv
+    unfold fill at hf
+    split at hf
+    · split at hf
+      · rename_i hall; cases hf; exact lastVal_of_allLookup hall kv hkv
+      · cases hf
+    · split at hf
+      · cases hf; exact embed_build_lookup h kvs kv.1 hl (hl kv hkv)
+      · cases hf; exact embed_build_lookup h kvs kv.1 hl (hl kv hkv)
+  | hash x =>
+    intro L U h pb kvs F hf hl kv hkv
+    unfold fill at hf
+    split at hf
+    · split at hf
+      · rename_i hall; cases hf; exact lastVal_of_allLookup hall kv hkv
+      · cases hf
+    · split at hf
+      · cases hf; exact embed_build_lookup h kvs kv.1 hl (hl kv hkv)
+      · cases hf
+  | leaf v =>
+    intro L U h pb kvs F hf hl kv hkv
+    unfold fill at hf
+    split at hf
+    · split at hf
+      · rename_i hall; cases hf; exact lastVal_of_allLookup hall kv hkv
+      · cases hf
+    · split at hf
+      · cases hf; exact embed_build_lookup h kvs kv.1 hl (hl kv hkv)
+      · simp only [hul, Bool.not_true, Bool.false_and, Bool.false_eq_true, if_false] at hf
+        split at hf
+        · cases hf
+        · rename_i hh0
+          cases hf
+          have : h = 0 := by simpa using hh0
+          subst this
+          exact embed_build_lookup 0 kvs kv.1 hl (hl kv hkv)
+  | bin l r ihl ihr =>
+    intro L U h pb kvs F hf hl kv hkv
+    unfold fill at hf
+    split at hf
+    · split at hf
+      · rename_i hall; cases hf; exact lastVal_of_allLookup hall kv hkv
+      · cases hf
+    · split at hf
+      · cases hf; exact embed_build_lookup h kvs kv.1 hl (hl kv hkv)
+      · cases h with
+        | zero => simp at hf
+        | succ h' =>
+          simp only at hf
+          cases hfl : fill A rc l (lowerBin L).1 (upperBin U).1 h' true (keysUnder false kvs) with
+          | none => simp [hfl] at hf
+          | some l' =>
+            cases hfr : fill A rc r (lowerBin L).2 (upperBin U).2 h' true (keysUnder true kvs) with
+            | none => simp [hfl, hfr] at hf
+            | some r' =>
+              simp only [hfl, hfr, Option.some.injEq] at hf
+              subst hf
+              obtain ⟨key, v⟩ := kv
+              cases key with
+              | nil => have := hl _ hkv; simp at this
+              | cons b k' =>
+                rw [← lastVal_keysUnder]
+                cases b
+                · simp only [PT.lookup, Bool.false_eq_true, if_false]
+                  exact ihl _ _ h' true _ l' hfl (keysUnder_length hl) (k', v) (mem_keysUnder hkv)
+                · simp only [PT.lookup, if_true]
+                  exact ihr _ _ h' true _ r' hfr (keysUnder_length hl) (k', v) (mem_keysUnder hkv)
+  | edge p c ih =>
+    intro L U h pb kvs F hf hl kv hkv
+    unfold fill at hf
+    split at hf
+    · split at hf
+      · rename_i hall; cases hf; exact lastVal_of_allLookup hall kv hkv
+      · cases hf
+    · split at hf
+      · cases hf; exact embed_build_lookup h kvs kv.1 hl (hl kv hkv)
+      · simp only at hf
+        split at hf
+        · cases hf
+        · rename_i hbad
+          have hp0 : ¬ p.length = 0 := fun h0 => hbad (Or.inl h0)
+          split at hf
+          · split at hf
+            · rename_i hall; cases hf; exact lastVal_of_allLookup hall kv hkv
+            · cases hf
+          · split at hf
+            · cases hf; exact embed_build_lookup h kvs kv.1 hl (hl kv hkv)
+            · cases hsp : stripPrefix p kvs with
+              | none => simp [hsp] at hf
+              | some kvs' =>
+                obtain ⟨hallp, hkvs'⟩ := stripPrefix_spec hsp
+                simp only [hsp] at hf
+                cases hfc : fill A rc c (lowerEdge p L) (upperEdge p U) (h - p.length) false kvs' with
+                | none => simp [hfc] at hf
+                | some c' =>
+                  have hl' : ∀ kv ∈ kvs', kv.1.length = h - p.length := by
+                    intro kv hkv
+                    rw [hkvs'] at hkv
+                    obtain ⟨kv0, hm, rfl⟩ := List.mem_map.mp hkv
+                    simp [hl kv0 hm]
+                  have hpre := hallp kv hkv
+                  obtain ⟨k', hk'⟩ := isPrefixOf_true_iff.mp hpre
+                  have hmem' : (k', kv.2) ∈ kvs' := by
+                    rw [hkvs']
+                    exact List.mem_map.mpr ⟨kv, hkv, by rw [← hk']; simp⟩
+                  have hc' := ih _ _ _ false kvs' c' hfc hl' (k', kv.2) hmem'
+                  simp only at hc'
+                  rw [hkvs', lastVal_strip hallp, hk'] at hc'
+                  have hFl : F.lookup A kv.1 = c'.lookup A k' := by
+                    rw [hfc] at hf
+                    rw [← hk']
+                    have hpre' : p.isPrefixOf (p ++ k') = true := isPrefixOf_true_iff.mpr ⟨k', rfl⟩
+                    cases c' with
+                    | nil => simp at hf; subst hf; simp [PT.lookup]
+                    | hash x => simp at hf; subst hf; simp [PT.lookup, hp0, hpre']
+                    | leaf x => simp at hf; subst hf; simp [PT.lookup, hp0, hpre']
+                    | bin a b => simp at hf; subst hf; simp [PT.lookup, hp0, hpre']
+                    | edge q d => simp at hf; subst hf; simp [PT.lookup, hp0, hpre']
+                  rw [hFl]; exact hc'
+
+
+theorem multi_listed_genuine (hI : Ideal A) (rc : RCfg) (hul : rc.unsetLeaf = true) (t : Tree H) (n : Nat)
+    (hwf : WF t n) (first : Path) (hfl : first.length = n) (kvs : List (Path × H))
+    (hkl : ∀ kv ∈ kvs, kv.1.length = n) (P : PSet H) (more : Bool)
+    (h : verifyMulti A rc (t.hash A) first kvs P = RRes.ok more) :
+    ∀ kv ∈ kvs, t.get A kv.1 = (lastVal kvs kv.1).getD A.zero := by
+  unfold verifyMulti at h
+  cases hlast : kvs.getLast? with
+  | none => simp [hlast] at h
+  | some lastKV =>
+    simp only [hlast] at h
+    split at h
+    · cases h
+    · split at h
+      · cases h
+      · split at h
+        · cases h
+        · cases hr1 : resolvePT A rc P (2 * verifyFuel) (PT.hash (t.hash A)) first with
+          | none => simp [hr1] at h
+          | some t1 =>
+            simp only [hr1] at h
+            cases hr2 : resolvePT A rc P (2 * verifyFuel) t1 lastKV.1 with
+            | none => simp [hr2] at h
+            | some t2 =>
+              simp only [hr2] at h
+              cases hfill : fill A rc t2 (Bd.at first) (Bd.at lastKV.1) first.length false kvs with
+              | none => simp [hfill] at h
+              | some f =>
+                simp only [hfill] at h
+                split at h
+                · rename_i hroot
+                  intro kv hkv
+                  have hlook := fill_lookup_listed (A := A) rc hul t2 _ _ first.length false kvs f hfill
+                    (by rw [hfl]; exact hkl) kv hkv
+                  exact lookup_agree hI f t n kv.1 _ hwf (hkl kv hkv) hroot hlook
+                · cases h
+
+/-! ### the storage proof of a slot, composed: slot ∈ storage trie ∈ contract leaf ∈ contracts trie ∈ state root -/
+
+theorem contractLeaf_inj (hI : Ideal A) {c s n c' s' n' : H}
+    (h : contractLeaf A c s n = contractLeaf A c' s' n') : c = c' ∧ s = s' ∧ n = n' := by
+  unfold contractLeaf at h
+  obtain ⟨h1, _⟩ := hI.bin_inj _ _ _ _ h
+  obtain ⟨h2, h3⟩ := hI.bin_inj _ _ _ _ h1
+  obtain ⟨h4, h5⟩ := hI.bin_inj _ _ _ _ h2
+  exact ⟨h4, h5, h3⟩
 
 end Juno.C10
